@@ -1,7 +1,7 @@
 import python_minifier.ast_compat as ast
 
 from python_minifier.rename.binding import NameBinding
-from python_minifier.rename.util import arg_rename_in_place, builtins, get_global_namespace
+from python_minifier.rename.util import arg_rename_in_place, builtins, get_global_namespace, has_private_names
 from python_minifier.transforms.suite_transformer import NodeVisitor
 
 
@@ -68,7 +68,13 @@ class NameBinder(NodeVisitor):
 
     def visit_ClassDef(self, node):
         if node.name not in node.namespace.nonlocal_names:
-            self.get_binding(node.name, node.namespace).add_reference(node)
+            binding = self.get_binding(node.name, node.namespace)
+            binding.add_reference(node)
+
+            if has_private_names(node):
+                # The class name is part of the mangled form of its private names
+                binding.disallow_rename()
+
         self.generic_visit(node)
 
     def visit_FunctionDef(self, node):
